@@ -30,7 +30,7 @@ def run(ctx):
     q = ctx.quick
     recs = []
     for cfg in ["MC_quick.cfg", "MC_deep.cfg", "MC_class.cfg", "MC_noov.cfg"]:
-        mc = ctx.tlc("planner", "Planner", cfg, workers=8, timeout=900)
+        mc = ctx.tlc("planner", "Planner", cfg, workers=4, timeout=900)
         ctx.account(mc)
         recs += mc.emitted
         ctx.log("%s: %d generated / %d distinct, %d states emitted (%.0fs)" % (cfg, mc.generated, mc.distinct, len(mc.emitted), mc.wall))
@@ -38,7 +38,7 @@ def run(ctx):
     ctx.account(live)
     ctx.log("MC_live (Converges under fairness): %d distinct (%.0fs)" % (live.distinct, live.wall))
     if not q:
-        big = ctx.tlc("planner", "Planner", "MC_big.cfg", timeout=3000)
+        big = ctx.tlc("planner", "Planner", "MC_big.cfg", workers=8, timeout=3000)
         ctx.account(big)
         ctx.log("MC_big: %d generated / %d distinct (%.0fs)" % (big.generated, big.distinct, big.wall))
     d = 14 if q else 16
@@ -53,6 +53,13 @@ def run(ctx):
     if not recs:
         raise vlib.Infra("no directory states emitted")
     ctx.samples = [recs[len(recs) // 3], recs[-1]]
+    if os.environ.get("VERIF_C08_CORRUPT"):
+        # binding self-test (notes/C08.md): flip one predicted field of one behaviour -> the check must exit 1
+        import copy
+        k = next(i for i, r in enumerate(recs) if r["run"])
+        recs[k] = copy.deepcopy(recs[k])
+        recs[k]["run"][0]["merged"]["stale"] = not recs[k]["run"][0]["merged"]["stale"]
+        ctx.log("CORRUPTED record %d: merged.stale flipped" % k)
     inp = ctx.write_ndjson("states.ndjson", recs)
     trace = ctx.tmp("c08_trace.ndjson")
     gr = ctx.go_test("tsdb", ["c08_planner_test.go"], "^TestVerifC08Planner$", env={"VERIF_IN": inp, "VERIF_C08_TRACE": trace})
